@@ -11,7 +11,9 @@ import cvxopt.coneprog, cvxopt.cvxprog
 
 ENTRIES = ["conelp", "coneqp", "lp", "qp", "socp", "sdp", "cpl", "cp", "gp", "op"]
 VALID_OPTS = {"maxiters": [1, 2, 3, 5, 100], "feastol": [1e-3, 1e-5, 1e-9], "abstol": [1e-3, 1e-9], "reltol": [1e-3, 1e-9],
-              "refinement": [0, 1, 2], "show_progress": [False]}
+              "refinement": [0, 1, 2], "show_progress": [False],
+              # parameters for the GLPK back-end of lp() (used by the calls generated with solver='glpk')
+              "glpk": [{"msg_lev": "GLP_MSG_OFF"}, {"msg_lev": "GLP_MSG_OFF", "it_lim": 1, "presolve": "GLP_OFF"}]}
 INVALID_OPTS = [("maxiters", 0), ("maxiters", 1.5), ("maxiters", "3"), ("maxiters", -2), ("feastol", 0.0), ("feastol", -1e-7),
                 ("feastol", "x"), ("refinement", -1), ("refinement", 0.5), ("abstol", "a"), ("reltol", None),
                 ("kktreg", -1.0), ("abstol+reltol", -1.0), ("feastol", float("nan")), ("abstol+reltol", float("nan"))]
@@ -33,6 +35,12 @@ def image(o):
     if callable(o):
         return ("C",)
     return ("V", repr(o))
+
+
+def other_globals():
+    """module-level state of the back-ends that a solver call must leave alone (besides solvers.options)"""
+    import cvxopt.glpk, cvxopt.dsdp
+    return (id(cvxopt.glpk.options), image(dict(cvxopt.glpk.options)), id(cvxopt.dsdp.options), image(dict(cvxopt.dsdp.options)))
 
 
 def ser(o):
@@ -62,7 +70,8 @@ def problem(draw, entry):
         kinds = {"conelp": "lqs", "lp": "l", "socp": "lq", "sdp": "ls"}[entry]
         p = draw(gc.cone_case(kind=draw(st.sampled_from(["feas", "feas", "feas", "pinf", "dinf"])), kinds=kinds, max_n=3))
         return dict(fam="cone", prob=p, spG=draw(st.booleans()), kkt=draw(st.sampled_from([None, None, "ldl", "chol"])),
-                    start=draw(st.sampled_from(["none", "none", "both"])))
+                    start=draw(st.sampled_from(["none", "none", "both"])),
+                    glpk=(entry == "lp" and draw(st.integers(0, 2)) == 0))
     if entry in ("coneqp", "qp"):
         if draw(st.integers(0, 4)) == 0:
             # no inequality constraints: coneqp/qp solve one KKT system directly (G, h given as empty matrices)
@@ -200,6 +209,8 @@ class Call:
             if e == "conelp":
                 r = solvers.conelp(a["c"], a["G"], a["h"], a["dims"], a["A"], a["b"], primalstart=a["primalstart"],
                                    dualstart=a["dualstart"], kktsolver=self.cfg["kkt"], **kw)
+            elif e == "lp" and self.pr.get("glpk"):
+                r = solvers.lp(a["c"], a["G"], a["h"], a["A"], a["b"], solver="glpk", **kw)
             elif e == "lp":
                 r = solvers.lp(a["c"], a["G"], a["h"], a["A"], a["b"], kktsolver=self.cfg["kkt"],
                                primalstart=a["primalstart"], dualstart=a["dualstart"], **kw)
@@ -411,8 +422,12 @@ def check_call(cs, glob_model, labels, where):
     before_args = image(call.args)
     before_glob = image(dict(solvers.options))
     before_per = image(per)
+    before_other = other_globals()
     out = call.run("__omit__" if per is None else per)
     msgs = []
+    if other_globals() != before_other:
+        msgs.append("module-level options of a back-end were modified by the call: cvxopt.glpk.options is now %r" % (
+            dict(sys.modules["cvxopt.glpk"].options),))
     if image(call.args) != before_args:
         msgs.append("an input argument (matrix, dims, start point) was modified by the call")
     if getattr(call, "start_obj", None) is not None and [repr(v) for v in call.start_obj] != call.start_snap:
@@ -572,8 +587,8 @@ def oracle(case, stats=None):
                 labels.add("tol_monotone")
             elif k == "threads":
                 calls = [Call(c["entry"], c["pr"]) for c in s["calls"]]
-                if not all(c.ok for c in calls):
-                    continue
+                if not all(c.ok for c in calls) or any(c["pr"].get("glpk") for c in s["calls"]):
+                    continue            # (GLPK keeps a global environment: its calls are not run concurrently)
                 outs = [None] * len(calls)
                 pers = [dict(c["per"]) if c["per"] is not None else {"show_progress": False} for c in s["calls"]]
                 barrier = threading.Barrier(len(calls))
